@@ -159,6 +159,9 @@ pub fn observe(case: &Case) -> Result<Obs, PanicInfo> {
             let tid = format!("{:?}", std::thread::current().id());
             let tid: String = tid.chars().filter(|c| c.is_ascii_digit()).collect();
             let path = dir.join(format!("c01-{}.shp", tid));
+            // the path already holds longer files (a shapefile regenerated in place)
+            std::fs::write(&path, vec![0xEEu8; 70_000]).expect("prefill");
+            std::fs::write(path.with_extension("shx"), vec![0xEEu8; 9_000]).expect("prefill");
             {
                 let mut w = ShapeWriter::from_path(&path).expect("create files");
                 for s in &libs {
@@ -217,7 +220,7 @@ pub fn observe(case: &Case) -> Result<Obs, PanicInfo> {
                 for (i, s) in libs.iter().enumerate() {
                     write_shape(&mut w, s).expect("write_shape to memory");
                     calls += 1;
-                    if case.fin_mask & (1 << (i + 1)) != 0 {
+                    if i < 31 && case.fin_mask & (1 << (i + 1)) != 0 {
                         w.finalize().expect("finalize between writes");
                         calls += 1;
                     }
@@ -528,6 +531,10 @@ enum UnitKind {
     Ladder { idx: usize },
     /// every finalize placement around sequences of 1..3 shapes, d = 0
     Finalize,
+    /// every part length n in [lo, hi), d = 0 (no size class is skipped up to the bound)
+    Sizes { lo: usize, hi: usize },
+    /// every record count n in [lo, hi), d = 0
+    Counts { lo: usize, hi: usize },
     /// disk route, d = 0, sequences
     Disk,
 }
@@ -553,6 +560,8 @@ fn tables(tier: Tier) -> Tables {
     }
     t.tuples = tuples(6, 2);
     t.tuples.extend(tuples(6, 3));
+    t.tuples.extend(tuples(3, 4));
+    t.tuples.extend(tuples(2, 5));
     if tier == Tier::Thorough {
         t.tuples.extend(tuples(4, 4));
     }
@@ -617,12 +626,29 @@ fn units(which: Which, tier: Tier, t: &Tables) -> Vec<Unit> {
             ty,
             kind: UnitKind::Finalize,
         });
-        if which == Which::C01 {
-            u.push(Unit {
-                ty,
-                kind: UnitKind::Disk,
-            });
+        if matches!(ty, Ty::Point | Ty::PolylineZ) {
+            let max = tier.pick(1600usize, 3100);
+            let mut lo = 4;
+            while lo < max {
+                let hi = (lo + (20000 / lo).clamp(4, 200)).min(max);
+                u.push(Unit { ty, kind: UnitKind::Counts { lo, hi } });
+                lo = hi;
+            }
         }
+        if matches!(ty, Ty::Multipoint | Ty::PolylineM | Ty::PolygonZ | Ty::Multipatch) {
+            let max = tier.pick(4200usize, 9000);
+            let mut lo = 2;
+            while lo < max {
+                // blocks of roughly equal work (work grows with n)
+                let hi = (lo + (60000 / lo).clamp(8, 400)).min(max);
+                u.push(Unit { ty, kind: UnitKind::Sizes { lo, hi } });
+                lo = hi;
+            }
+        }
+        u.push(Unit {
+            ty,
+            kind: UnitKind::Disk,
+        });
     }
     u
 }
@@ -759,11 +785,24 @@ fn enumerate_unit(which: Which, t: &Tables, u: &Unit, ctx: &mut Ctx, tick: &dyn 
                 go(Case { ty, shapes, ndev: 0, fin_mask: 0, disk: false }, ctx);
             }
         }
+        UnitKind::Counts { lo, hi } => {
+            let red = lookup(&t.reduced, ty);
+            for n in *lo..*hi {
+                let shapes: Vec<MShape> = (0..n).map(|i| red[(i * 5 + i / 7) % red.len()].clone()).collect();
+                go(Case { ty, shapes, ndev: 0, fin_mask: 0, disk: false }, ctx);
+            }
+        }
+        UnitKind::Sizes { lo, hi } => {
+            for n in *lo..*hi {
+                go(Case { ty, shapes: vec![sized(ty, n)], ndev: 0, fin_mask: 0, disk: false }, ctx);
+            }
+        }
         UnitKind::Finalize => {
             let red = lookup(&t.reduced, ty);
             let k = red.len().min(3);
-            for n in 1..=3usize {
-                for tup in tuples(k, n) {
+            for n in 1..=5usize {
+                // up to 3 writes over 3 shapes, 4 and 5 writes over 2 shapes
+                for tup in tuples(if n <= 3 { k } else { k.min(2) }, n) {
                     for mask in 1u32..(1 << (n + 1)) {
                         go(Case { ty, shapes: tup.iter().map(|i| red[*i].clone()).collect(), ndev: 0, fin_mask: mask, disk: false }, ctx);
                     }
@@ -884,7 +923,7 @@ fn selftest(which: Which) -> (u64, u64) {
 
 pub fn check(which: Which, tier: Tier) -> i32 {
     let started = Instant::now();
-    if which == Which::C01 && !scratch_usable() {
+    if !scratch_usable() {
         return 2;
     }
     let t = tables(tier);
@@ -906,7 +945,7 @@ pub fn check(which: Which, tier: Tier) -> i32 {
             tier,
             level: "model_checking",
             engine: "E2 structure x deviation enumerator on the real ShapeWriter/ShapeReader",
-            rule: "every structure of the builder grammar (per type: vertex counts, part-length vectors, ring templates x declared roles, patch kinds x lengths) x every file sequence (n=1 for all, n=2,3 ordered tuples over the reduced different-size set) x every deviation set of size <= d from the per-dimension float alphabets; distinct = hash of all coordinate bit patterns and structure; non-trivial = >=2 records or >=2 parts or >=1 deviation",
+            rule: "every structure of the builder grammar (per type: vertex counts, part-length vectors, ring templates x declared roles, patch kinds x lengths) x every file sequence (n=1 for all, n=2,3 ordered tuples over the reduced different-size set) x every deviation set of size <= d from the per-dimension float alphabets; plus, for one type per family, EVERY part length from 2 up to the size bound and (Point, PolylineZ) EVERY record count up to the count bound (d = 0), a size ladder of many-part shapes, and every finalize placement around 1-5 writes; distinct = hash of all coordinate bit patterns and structure; non-trivial = >=2 records or >=2 parts or >=1 deviation",
             bounds: json!({
                 "types": 13,
                 "structures_total": nstructs,
@@ -914,6 +953,8 @@ pub fn check(which: Which, tier: Tier) -> i32 {
                 "deviation_bound": tier.pick(1, 2),
                 "float_alphabet_sizes": {"xy": f_xy().len(), "z": f_z().len(), "m": f_m().len()},
                 "d2_scope": "single-shape files over the reduced structure set (thorough only)",
+                "every_part_length_up_to": tier.pick(4200, 9000),
+                "every_record_count_up_to": tier.pick(1600, 3100),
                 "routes": ["mem generic/concrete x iter shx/noshx", "mem generic/concrete read_nth", "disk from_path read_shapes/read_shapes_as/read_nth (d=0 sequences, C01)"],
             }),
             exhaustive: true,
